@@ -18,7 +18,7 @@ PROPERTY = "C23"
 LEVEL = "model_checking"
 META = {
     "engine": "hbfs",
-    "technique": "explicit-state BFS over call histories of a real AsyncSubject with heap-canonical state de-duplication, judged by a value/has_value reference model",
+    "technique": "explicit-state BFS over call histories of a real AsyncSubject with heap-canonical state de-duplication, judged by a value/has_value reference model; plus stateless exhaustive exploration of thread interleavings (bounded preemptions) of subscribe() / dispose() racing the emitting thread, judged against the sequential placements on the same real class",
     "text": "every history over sub(i)/unsub(i)/next(a|b)/error/complete/dispose (+ callback-only subscribe after dispose) up to the depth "
     "bound, values incl. falsy ones (0/None/False), for every listed configuration of plain and scripted (re-entrant) observers, is replayed "
     "on a fresh real AsyncSubject; per-observer logs and exceptions raised to the caller must equal the model's after every event. Instances "
